@@ -63,12 +63,12 @@ def run(ctx, replay=None):
                          PREFIX, exhaustive_family=f'S-cell {h}x{w}')
     ctx.add_part('door family', size=len(fam), box_family=len(bfam),
                  colours=cols, description='door status(3) x colours+NONE x held (none, key per colour, wall, door, beacon) x every relative pose on 3x3, 1x3, 3x1, 1x2, 2x1, 1x1 grids x 8 actions')
-    sc.random_big_part(ctx, PREFIX, 300 if ctx.quick else 20000, seed_offset=3)
+    sc.random_big_part(ctx, PREFIX, 300 if ctx.quick else 6000, seed_offset=3)
     sc.live_chain_part(ctx, PREFIX, 150 if ctx.quick else 1500, seed_offset=3)
     sc.mc_reach(ctx, ['InvDoorHistory', 'InvBeyondWall', 'InvDoorsStayDoors'])
     sc.apalache_lemmas(ctx, ['DoorLemma'], modules=('MC_GVSym_5x5',) if ctx.quick else ('MC_GVSym_5x5', 'MC_GVSym_7x9'))
     sc.history_part(ctx, PREFIX, ['gv_keydoor.5x5.yaml', 'gv_keydoor.7x7.yaml', 'gv_keydoor.9x9.yaml'] if ctx.quick else [os.path.basename(x) for x in __import__('harness.config', fromlist=['x']).shipped_files()],
-                    400 if ctx.quick else 5000, range(2) if ctx.quick else range(6))
+                    400 if ctx.quick else 2000, range(2) if ctx.quick else range(4))
     ctx.cov['exhaustive'] = True
 
 
